@@ -258,6 +258,106 @@ case("C20", "C20-b-filepath", "benign", "layout BlobDelete builds its path with 
      edits=[("scheme/ocidir/blob.go", "\tfile := path.Join(r.Path, \"blobs\", d.Digest.Algorithm().String(), d.Digest.Encoded())\n\treturn os.Remove(file)", "\tfile := filepath.Join(r.Path, \"blobs\", d.Digest.Algorithm().String(), d.Digest.Encoded())\n\treturn os.Remove(file)"),
             ("scheme/ocidir/blob.go", "\t\"os\"\n\t\"path\"\n", "\t\"os\"\n\t\"path\"\n\t\"path/filepath\"\n")])
 
+# ---------------------------------------------------------------- C02
+case("C02", "C02-seed1", "mutant", "seeded: SetLayers/SetManifestList return early when the list looks unchanged",
+     patch="seeded/C02-1/patch.diff", expect=[("C02.R1", "SetLayers", "resync"), ("C02.R1", "SetManifestList", "resync")])
+case("C02", "C02-seed2", "mutant", "seeded: layout manifestGet passes only the media type of the index descriptor",
+     patch="seeded/C02-2/patch.diff", expect=[("C02.R5", "manifestGet", "manifest.New")])
+case("C02", "C02-m-noupdate", "mutant", "SetAnnotation returns without updateDesc",
+     edits=[("types/manifest/oci1.go", "func (m *oci1Index) SetAnnotation(key, val string) error {\n\tif !m.manifSet {\n\t\treturn errs.ErrManifestNotSet\n\t}\n\tif m.Annotations == nil {\n\t\tm.Annotations = map[string]string{}\n\t}\n\tif val != \"\" {\n\t\tm.Annotations[key] = val\n\t} else {\n\t\tdelete(m.Annotations, key)\n\t}\n\treturn m.updateDesc()\n}", "func (m *oci1Index) SetAnnotation(key, val string) error {\n\tif !m.manifSet {\n\t\treturn errs.ErrManifestNotSet\n\t}\n\tif m.Annotations == nil {\n\t\tm.Annotations = map[string]string{}\n\t}\n\tif val != \"\" {\n\t\tm.Annotations[key] = val\n\t} else {\n\t\tdelete(m.Annotations, key)\n\t}\n\treturn nil\n}")],
+     expect=[("C02.R1", "oci1Index).SetAnnotation", "resync")])
+case("C02", "C02-m-rawstale", "mutant", "updateDesc forgets the raw body",
+     edits=[("types/manifest/docker2.go", "func (m *docker2Manifest) updateDesc() error {\n\tmj, err := json.Marshal(m.Manifest)\n\tif err != nil {\n\t\treturn err\n\t}\n\tm.rawBody = mj\n", "func (m *docker2Manifest) updateDesc() error {\n\tmj, err := json.Marshal(m.Manifest)\n\tif err != nil {\n\t\treturn err\n\t}\n")],
+     expect=[("C02.R2", "docker2Manifest", "coherent")])
+case("C02", "C02-m-nocompare", "mutant", "fromCommon ignores a digest mismatch",
+     edits=[("types/manifest/manifest.go", "\t// verify digest didn't change\n\tif origDigest != \"\" && origDigest != c.desc.Digest {\n\t\treturn nil, fmt.Errorf(\"manifest digest mismatch, expected %s, computed %s%.0w\", origDigest, c.desc.Digest, errs.ErrDigestMismatch)\n\t}\n\treturn m, nil\n}\n\nfunc verifyMT", "\t_ = origDigest\n\treturn m, nil\n}\n\nfunc verifyMT")],
+     expect=[("C02.R3", "fromCommon", "digest mismatch")])
+case("C02", "C02-m-remarshal", "mutant", "MarshalJSON re-serialises instead of returning the stored bytes",
+     edits=[("types/manifest/oci1.go", "func (m *oci1Manifest) MarshalJSON() ([]byte, error) {\n\tif !m.manifSet {\n\t\treturn []byte{}, errs.ErrManifestNotSet\n\t}\n\n\tif len(m.rawBody) > 0 {\n\t\treturn m.rawBody, nil\n\t}\n", "func (m *oci1Manifest) MarshalJSON() ([]byte, error) {\n\tif !m.manifSet {\n\t\treturn []byte{}, errs.ErrManifestNotSet\n\t}\n")],
+     expect=[("C02.R4", "oci1Manifest).MarshalJSON", "raw body")])
+
+# ---------------------------------------------------------------- C03
+case("C03", "C03-seed1", "mutant", "seeded: DescriptorListFilter filters in place (dl[:0])",
+     patch="seeded/C03-1/patch.diff", expect=[("C03.R6", "DescriptorListFilter", "fresh result")])
+case("C03", "C03-seed2", "mutant", "seeded: digest-tag copies inherit the child flag",
+     patch="seeded/C03-2/patch.diff", expect=[("C03.R3", "imageCopyOpt", "by tag")])
+case("C03", "C03-m-noconfig", "mutant", "copy skips the config blob",
+     edits=[("image.go", "\t\t\t\terr := rc.imageCopyBlob(ctx, refSrc, refTgt, cd, opt, bOpt...)\n", "\t\t\t\tvar err error\n\t\t\t\t_ = cd\n")],
+     expect=[("C03.R1", "imageCopyOpt", "GetConfig")])
+case("C03", "C03-m-earlyok", "mutant", "traversal returns success when the target manifest merely exists",
+     edits=[("image.go", "\t// when copying/updating digest tags or referrers, only the source digest is needed for an image\n", "\tif mTgt != nil && child {\n\t\treturn nil\n\t}\n\t// when copying/updating digest tags or referrers, only the source digest is needed for an image\n")],
+     expect=[("C03.R2", "imageCopyOpt", "early success")])
+case("C03", "C03-m-mt", "mutant", "export no longer treats schema1 as a manifest",
+     edits=[("image.go", "\tcase mediatype.Docker1Manifest, mediatype.Docker1ManifestSigned, mediatype.Docker2Manifest, mediatype.OCI1Manifest:\n\t\t// Handle single platform manifests", "\tcase mediatype.Docker2Manifest, mediatype.OCI1Manifest:\n\t\t// Handle single platform manifests")],
+     expect=[("C03.R5", "imageExportDescriptor", "media types")])
+case("C03", "C03-m-closefirst", "mutant", "waiters are woken before the error is stored",
+     edits=[("image.go", "\t\t\tseenNew.err = err\n\t\t\tclose(seenNew.done)\n", "\t\t\tclose(seenNew.done)\n\t\t\tseenNew.err = err\n")],
+     expect=[("C03.R4", "imageSeenOrWait", "error stored")])
+
+# ---------------------------------------------------------------- C09
+case("C09", "C09-seed2", "mutant", "seeded: RepoTags printed from a reference that may still carry its digest",
+     patch="seeded/C09-2/patch.diff", expect=[("C09.R5", "ImageExport", "RepoTags")])
+case("C09", "C09-m-forward", "mutant", "finish list run front to back (parents before nested manifests)",
+     edits=[("image.go", "\tfor i := len(trd.finish) - 1; i >= 0; i-- {\n\t\terr := trd.finish[i]()", "\tfor i := 0; i < len(trd.finish); i++ {\n\t\terr := trd.finish[i]()")],
+     expect=[("C09.R4", "imageImportOCIPushManifests", "reverse")])
+case("C09", "C09-m-nosize", "mutant", "export does not compare the blob size",
+     edits=[("image.go", "\t\tif size != desc.Size {\n\t\t\treturn fmt.Errorf(\"blob size mismatch, descriptor %d, received %d\", desc.Size, size)\n\t\t}\n", "\t\t_ = size\n")],
+     expect=[("C09.R3", "imageExportDescriptor", "blob size")])
+case("C09", "C09-m-pushearly", "mutant", "import pushes the manifest while handlers are still being registered",
+     edits=[("image.go", "\tif push {\n\t\ttrd.finish = append(trd.finish, func() error {\n", "\tif push {\n\t\tif err := rc.ManifestPut(ctx, r.SetDigest(m.GetDescriptor().Digest.String()), m); err != nil {\n\t\t\treturn err\n\t\t}\n\t\ttrd.finish = append(trd.finish, func() error {\n")],
+     expect=[("C09.R4", "imageImportOCIHandleManifest", "deferred")])
+
+# ---------------------------------------------------------------- C11
+case("C11", "C11-seed1", "mutant", "seeded: one header map shared by all attempts of a request",
+     patch="seeded/C11-1/patch.diff", expect=[("C11.R3", "next", "request header map")])
+case("C11", "C11-seed2", "mutant", "seeded: handler table keyed by the host with the port stripped",
+     patch="seeded/C11-2/patch.diff", expect=[("C11.R2", "UpdateRequest", "handler table key")])
+case("C11", "C11-m-logpass", "mutant", "password logged when a host changes",
+     edits=[("regclient.go", "\t\t\tslog.String(\"user\", configHost.User))\n\t\terr := rc.hostSet(configHost)", "\t\t\tslog.String(\"user\", configHost.User+\":\"+configHost.Pass))\n\t\terr := rc.hostSet(configHost)")],
+     expect=[("C11.R6", "hostLoad", "slog argument")])
+case("C11", "C11-m-nomask", "mutant", "nameless entry logged without masking the token",
+     edits=[("regclient.go", "\t\t\tif configHost.Token != \"\" {\n\t\t\t\tconfigHost.Token = \"***\"\n\t\t\t}\n", "")],
+     expect=[("C11.R6", "hostLoad", "slog struct")])
+case("C11", "C11-m-http", "mutant", "clear text also chosen for insecure TLS",
+     edits=[("internal/reghttp/http.go", "\t\t\t\tif h.config.TLS == config.TLSDisabled {\n\t\t\t\t\tu.Scheme = \"http\"\n\t\t\t\t}", "\t\t\t\tif h.config.TLS != config.TLSEnabled {\n\t\t\t\t\tu.Scheme = \"http\"\n\t\t\t\t}")],
+     expect=[("C11.R4", "next", "scheme http")])
+case("C11", "C11-m-reqheader", "mutant", "request headers logged uncensored",
+     edits=[("internal/reghttp/http.go", "\t\t\tslog.Any(\"req-headers\", reqHead),\n\t\t\tslog.String(\"err\", err.Error()))", "\t\t\tslog.Any(\"req-headers\", req.Header),\n\t\t\tslog.String(\"err\", err.Error()))")],
+     expect=[("C11.R6", "RoundTrip", "slog headers")])
+case("C11", "C11-m-mirrorauth", "mutant", "auth handler taken from the upstream host entry for every attempt",
+     edits=[("internal/reghttp/http.go", "\t\t\thAuth := h.getAuth(req.Repository)\n", "\t\t\thAuth := reqHost.getAuth(req.Repository)\n")],
+     expect=[("C11.R3", "next", "same host entry")])
+
+# ---------------------------------------------------------------- C15
+case("C15", "C15-seed1", "mutant", "seeded: library/ prefix decided before the Hub aliases are rewritten",
+     patch="seeded/C15-1/patch.diff", expect=[("C15.R5", "New", "Docker Hub")])
+case("C15", "C15-seed2", "mutant", "seeded: scheme cut out with strings.Cut instead of the anchored pattern",
+     patch="seeded/C15-2/patch.diff", expect=[("C15.R5", "New", "scheme from the grammar")])
+case("C15", "C15-m-upper", "mutant", "repository parts accept upper case",
+     edits=[("types/ref/ref.go", "\trepoPartS   = `[a-z0-9]+(?:(?:\\.|_|__|-+)[a-z0-9]+)*`", "\trepoPartS   = `[a-zA-Z0-9]+(?:(?:\\.|_|__|-+)[a-z0-9]+)*`")],
+     expect=[("C15.R2", "refRE", "repository alphabet")])
+case("C15", "C15-m-unanchored", "mutant", "reference pattern loses its end anchor",
+     edits=[("types/ref/ref.go", "\t\t`(?:` + regexp.QuoteMeta(`@`) + `(` + digestS + `))?$`)\n\tocidirRE", "\t\t`(?:` + regexp.QuoteMeta(`@`) + `(` + digestS + `))?`)\n\tocidirRE")],
+     expect=[("C15.R1", "refRE", "anchored")])
+case("C15", "C15-m-taglen", "mutant", "tags of up to 256 characters",
+     edits=[("types/ref/ref.go", "\ttagS        = `[a-zA-Z0-9_][a-zA-Z0-9._-]{0,127}`", "\ttagS        = `[a-zA-Z0-9_][a-zA-Z0-9._-]{0,255}`")],
+     expect=[("C15.R2", "", "tag alphabet")])
+case("C15", "C15-m-settag", "mutant", "SetTag forgets to clear the digest but also resets the path",
+     edits=[("types/ref/ref.go", "\tr.Tag = tag\n\tr.Digest = \"\"\n\tr.Reference = r.CommonName()", "\tr.Tag = tag\n\tr.Path = \"\"\n\tr.Reference = r.CommonName()")],
+     expect=[("C15.R3", "SetTag", "")])
+
+# ---------------------------------------------------------------- C16
+case("C16", "C16-seed2", "mutant", "seeded: NewCompare normalises its parameter after copying it",
+     patch="seeded/C16-2/patch.diff", expect=[("C16.R2", "NewCompare", "normalised")])
+case("C16", "C16-m-alias", "mutant", "aarch64 no longer mapped",
+     edits=[("types/platform/platform.go", "\tcase \"aarch64\", \"arm64\":\n\t\tp.Architecture = \"arm64\"", "\tcase \"arm64\":\n\t\tp.Architecture = \"arm64\"")],
+     expect=[("C16.R1", "normalize", "aarch64")])
+case("C16", "C16-m-idem", "mutant", "armhf mapped to arm with an empty variant (which normalises again to v7)",
+     edits=[("types/platform/platform.go", "\tcase \"armhf\":\n\t\tp.Architecture = \"arm\"\n\t\tp.Variant = \"v7\"", "\tcase \"armhf\":\n\t\tp.Architecture = \"arm\"\n\t\tp.Variant = \"\"")],
+     expect=[("C16.R1", "normalize", "")])
+case("C16", "C16-b-ifform", "benign", "macos alias written as an if statement",
+     edits=[("types/platform/platform.go", "\tswitch p.OS {\n\tcase \"macos\":\n\t\tp.OS = \"darwin\"\n\t}\n", "\tif p.OS == \"macos\" {\n\t\tp.OS = \"darwin\"\n\t}\n")])
+
 def main():
     bad = 0
     for pid, cases in CASES.items():
